@@ -3,7 +3,8 @@ event per update.  Started with different PYTHONHASHSEED values by the check."""
 import json
 import sys
 
-sys.path.insert(0, "/repo/src")
+import os
+sys.path.insert(0, os.path.join(os.environ.get("VERIF_REPO", "/repo"), "src"))
 
 
 def main():
